@@ -12,6 +12,9 @@ are executed on a booted machine with a running two player game, with a manual s
 Settings are a variable source of their own: `st` is stored under its own name, `sq` in a differently named machine
 variable (`machine_var: qv` in the config), `sc` is a SettingEntry added by code with a machine variable of its own;
 they change through the settings controller (`set`) and directly through the backing machine variable (`setm`).
+Machine variables (also those behind settings) are missing, declared but unset (`declare` = configure_machine_var; what
+set_setting_value does before the first write) or set; the values written include the falsy value of every type
+(0, False, '', None), so that every transition between value classes is driven from every one of the three states.
 """
 import ast
 import asyncio
@@ -326,24 +329,40 @@ def rand_expr(rnd, n, in_exp=False, basic=False):
 
 
 # ----------------------------------------------------------------------------------------------- environments
-def mkenv(ma, mb, px, st, sw, cv, kp, game=True, cur=1, sq=None, sc=None):
-    """st, sq, sc: the value of the machine variable behind the setting (NONE: that variable does not exist)."""
-    return {'ma': ma, 'mb': mb, 'px': list(px), 'st': st, 'sq': sq or NONE, 'sc': sc or I(3), 'sw': sw, 'cv': cv, 'kp': kp,
-            'game': game, 'cur': cur}
+DNAMES = ('ma', 'mb', 'st', 'sq', 'sc')
 
 
-# settings: name -> (machine variable it is stored in, default); all have the value table {1, 2, 3}
+def mkenv(ma, mb, px, st, sw, cv, kp, game=True, cur=1, sq=None, sc=None, declared=()):
+    """st, sq, sc: the value of the machine variable behind the setting (NONE: that variable is unset).
+    declared: names whose machine variable exists although it is unset (dc: does the variable exist)."""
+    env = {'ma': ma, 'mb': mb, 'px': list(px), 'st': st, 'sq': sq or NONE, 'sc': sc or I(3), 'sw': sw, 'cv': cv, 'kp': kp,
+           'game': game, 'cur': cur}
+    env['dc'] = {n: bool(env[n] != NONE or n in declared) for n in DNAMES}
+    return env
+
+
+# settings: name -> (machine variable it is stored in, default); all have the value table {0, 1, 2, 3}
 SETTINGS = {'st': ('st', 2), 'sq': ('qv', 1), 'sc': ('c_store', 3)}
-SVALID = {1: 'one', 2: 'two', 3: 'three'}
+SVALID = {0: 'zero', 1: 'one', 2: 'two', 3: 'three'}
 ENVS_A = [mkenv(NONE, I(2), (I(0), I(1)), I(2), I(0), I(0), I(1)),
           mkenv(I(3), NONE, (I(2), I(0)), I(1), I(1), I(5), S('a'), sq=I(3), sc=I(5)),
           mkenv(S('a'), I(0), (I(1), I(3)), I(3), I(0), I(2), NONE, sq=S('a'), sc=I(1))]
 ENV_B = mkenv(I(1), NONE, (I(0), I(0)), I(2), I(0), I(0), I(1))
-ENV_B0 = dict(ENV_B, game=False)       # no game running at the start
-MVALS = [I(0), I(1), I(3), S('a')]
-PVALS = [I(0), I(1), I(2)]
-SVALS = [I(1), I(2), I(3)]
-SMVALS = [I(1), I(3), I(5), S('a')]      # assigned to the machine variable behind a setting: 5 and 'a' are not in the table
+# no game running at the start; b and the variable behind sq are declared but unset (subscribers attach after the
+# declaration), the setting st has never been changed (its variable is missing)
+ENV_B0 = mkenv(I(1), NONE, (I(0), I(0)), NONE, I(0), I(0), I(1), game=False, declared=('mb', 'sq'))
+MVALS = [I(0), I(1), I(3), S('a'), S(''), B(False), NONE]
+# Player.__setattr__ posts no player_<var> event for a value that is not an int / str / float, so a player variable
+# written to None is a finding of its own (signature ...:set-player-write-of-none-...); VERIF_C16_PLAYER_NONE=0 leaves it out.
+PLAYER_NONE = os.environ.get('VERIF_C16_PLAYER_NONE', '1') != '0'
+PVALS = [I(0), I(1), I(2), S('')] + ([NONE] if PLAYER_NONE else [])
+SVALS = [I(0), I(1), I(2), I(3)]
+# assigned to the machine variable behind a setting: 5, 'a' and '' are not in the table, False counts as 0
+SMVALS = [I(0), I(1), I(3), I(5), S('a'), S(''), B(False)]
+# the exhaustive design check uses one value per class (schedules are generated over the full sets)
+MVALS_Q = [I(0), I(3), S(''), B(False), NONE]
+SVALS_Q = [I(0), I(2), I(3)]
+SMVALS_Q = [I(0), I(5), S(''), B(False)]
 WVALS = [I(0), I(1)]
 CVALS = [I(0), I(2), I(3)]
 
@@ -485,9 +504,9 @@ def write_machine(scratch):
     d = os.path.join(scratch, 'machines', 'templates')
     os.makedirs(d + '/config', exist_ok=True)
     Ls = ['#config_version=6', 'game:', '  balls_per_game: 60', 'machine_vars:', '  a:', '    initial_value: 1',
-          '    value_type: int', 'settings:', '  st:', '    label: St', '    values:', '      1: "one"', '      2: "two"',
-          '      3: "three"', '    default: 2', '    key_type: int', '    sort: 1',
-          '  sq:', '    label: Sq', '    values:', '      1: "one"', '      2: "two"', '      3: "three"',
+          '    value_type: int', 'settings:', '  st:', '    label: St', '    values:', '      0: "zero"', '      1: "one"',
+          '      2: "two"', '      3: "three"', '    default: 2', '    key_type: int', '    sort: 1',
+          '  sq:', '    label: Sq', '    values:', '      0: "zero"', '      1: "one"', '      2: "two"', '      3: "three"',
           '    default: %d' % SETTINGS['sq'][1], '    key_type: int', '    sort: 2', '    machine_var: %s' % SETTINGS['sq'][0],
           'switches:', '  s_start:',
           '    number: 1', '    tags: start', '  s1:', '    number: 2', 'counters:', '  c1:', '    count_events: c1_hit',
@@ -559,22 +578,29 @@ def install_env(h, env, restart=False):
     m = h.machine
     if restart and m.game:
         h.stop_game()
+    dc = env.get('dc', {})
     for name, key in (('a', 'ma'), ('b', 'mb')):
         v = dec(env[key])
         if v is None:
             if name in m.variables.machine_vars:          # unset: tell subscribers first, then drop the variable
-                m.variables.set_machine_var(name, None)
-                _run(h, 3)
+                if m.variables.machine_vars[name]['value'] is not None:
+                    m.variables.set_machine_var(name, None)
+                    _run(h, 3)
                 m.variables.machine_vars.pop(name, None)
+            if dc.get(key):                               # declared, still unset
+                m.variables.configure_machine_var(name, persist=False)
         else:
             m.variables.set_machine_var(name, v)
     for s, (mvar, _) in SETTINGS.items():
         v = dec(env[s])
         if v is None:
             if mvar in m.variables.machine_vars:
-                m.variables.set_machine_var(mvar, None)
-                _run(h, 3)
+                if m.variables.machine_vars[mvar]['value'] is not None:
+                    m.variables.set_machine_var(mvar, None)
+                    _run(h, 3)
                 m.variables.machine_vars.pop(mvar, None)
+            if dc.get(s):
+                m.variables.configure_machine_var(mvar, persist=False)
         elif v in SVALID:
             m.settings.set_setting_value(s, v)
         else:
@@ -812,6 +838,14 @@ def _exec_b(mdir, cid, sched, env0):
         except Exception as ex:  # pylint: disable=broad-except
             return encv(ex)
 
+    def state_of(n):
+        """missing / declared-unset / set: the state of the machine variable (behind) n before a step."""
+        name = {'ma': 'a', 'mb': 'b'}.get(n) or SETTINGS.get(n, (None,))[0]
+        if name is None:
+            return '-'
+        mv = m.variables.machine_vars.get(name)
+        return 'missing' if mv is None else 'declared-unset' if mv['value'] is None else 'set'
+
     def obs(rec, ep0):
         rec.update({'done': bool(st['fut'].done()), 'alast': encv(auto.last), 'fired': counts()[0] > ep0,
                     '_fresh': fresh(), '_last': encv(st['val']), '_reevaluated': auto.evals > st.get('evals', 0)})
@@ -839,6 +873,7 @@ def _exec_b(mdir, cid, sched, env0):
             if op == 'set':
                 v = dec(s['v'])
                 n = s['var']
+                was = state_of(n)
                 if n in ('ma', 'mb'):
                     m.variables.set_machine_var({'ma': 'a', 'mb': 'b'}[n], v)
                 elif n in SETTINGS:
@@ -855,11 +890,17 @@ def _exec_b(mdir, cid, sched, env0):
                 else:
                     raise ValueError(n)
                 _run(h)
-                obs({'op': 'set', 'var': n, 'p': s.get('p', 0), 'v': s['v']}, ep0)
+                obs({'op': 'set', 'var': n, 'p': s.get('p', 0), 'v': s['v'], '_was': was}, ep0)
             elif op == 'setm':
+                was = state_of(s['var'])
                 m.variables.set_machine_var(SETTINGS[s['var']][0], dec(s['v']))
                 _run(h)
-                obs({'op': 'setm', 'var': s['var'], 'v': s['v']}, ep0)
+                obs({'op': 'setm', 'var': s['var'], 'v': s['v'], '_was': was}, ep0)
+            elif op == 'declare':
+                n = s['var']
+                m.variables.configure_machine_var({'ma': 'a', 'mb': 'b'}.get(n) or SETTINGS[n][0], persist=False)
+                _run(h)
+                obs({'op': 'declare', 'var': n}, ep0)
             elif op == 'remove':
                 m.variables.remove_machine_var({'ma': 'a', 'mb': 'b'}[s['var']])
                 _run(h)
@@ -906,6 +947,14 @@ def b_symptom(fe, cls='attr'):
                        'sw': 'device', 'cv': 'device', 'px': 'player'}[fe['var']]
     if op == 'setm':        # the machine variable behind a setting was assigned directly
         op = 'setm-' + ('setting' if fe['var'] == 'st' else 'setting-own-mvar')
+    if op.startswith('set') and cls != 'index' and fe.get('var') in DNAMES:
+        # the first write to a variable that existed unset (declared, or a setting changed for the first time) and writes
+        # of falsy values are classes of their own
+        falsy = fe.get('v') in (I(0), B(False), S(''), NONE)
+        if fe.get('_was') == 'declared-unset' or (fe.get('_was') == 'missing' and fe['var'] in SETTINGS and fe['op'] == 'set'):
+            op += '-first-write-of-' + ('falsy' if falsy else 'value')
+    if op == 'set-player' and fe.get('v') == NONE:
+        op += '-write-of-none'                  # a class of its own (Player.__setattr__ announces int / str / float only)
     if op in ('reeval', 'obs'):
         return op + '-wrong-value'
     if op == 'post':
@@ -925,8 +974,10 @@ def _sset(xs):
 
 
 def _vals_defs():
-    return 'MCMVals == %s\nMCPVals == %s\nMCSVals == %s\nMCWVals == %s\nMCCVals == %s\nMCSMVals == %s' % (
-        _sset(MVALS), _sset(PVALS), _sset(SVALS), _sset(WVALS), _sset(CVALS), _sset(SMVALS))
+    return ('MCMVals == %s\nMCPVals == %s\nMCSVals == %s\nMCWVals == %s\nMCCVals == %s\nMCSMVals == %s\n'
+            'MCMValsQ == %s\nMCSValsQ == %s\nMCSMValsQ == %s' % (
+                _sset(MVALS), _sset(PVALS), _sset(SVALS), _sset(WVALS), _sset(CVALS), _sset(SMVALS),
+                _sset(MVALS_Q), _sset(SVALS_Q), _sset(SMVALS_Q)))
 
 
 def mc_module_a():
@@ -966,7 +1017,7 @@ CONSTANTS
   Spurious = %s
 %sCHECK_DEADLOCK FALSE
 """
-PROPS_B = ('INVARIANT NoStaleAtRest\nINVARIANT AutoFresh\nINVARIANT EvalTotal\nPROPERTY Notified\n'
+PROPS_B = ('INVARIANT NoStaleAtRest\nINVARIANT AutoFresh\nINVARIANT EvalTotal\nINVARIANT DeclOK\nPROPERTY Notified\n'
            'PROPERTY ReevalCurrent\n')
 TRACE_CFG = """SPECIFICATION TSpec
 CONSTANTS
@@ -1007,6 +1058,60 @@ HAND = [
     (40, [{'op': 'set', 'var': 'sq', 'v': I(3)}, {'op': 'reeval'}, {'op': 'setm', 'var': 'sq', 'v': I(1)}]),
     (9, [{'op': 'setm', 'var': 'st', 'v': I(5)}, {'op': 'reeval'}, {'op': 'post'}, {'op': 'set', 'var': 'st', 'v': I(3)}]),
 ]
+
+
+def _set(var, v, **kw):
+    return dict({'op': 'set', 'var': var, 'v': v}, **kw)
+
+
+def _setm(var, v):
+    return {'op': 'setm', 'var': var, 'v': v}
+
+
+RE, PO = {'op': 'reeval'}, {'op': 'post'}
+ENV_SC = dict(ENV_B, sc=NONE, dc=dict(ENV_B['dc'], sc=False))     # the setting added by code has never been changed
+
+
+def first_write_family():
+    """Hand-written schedules for variables that exist before they get their first value and for writes of falsy values:
+    every source (machine variable, setting under its own / another variable, setting added by code, the variable behind a
+    setting read as machine.<name>, player variable), subscribers attached before (declare in the schedule) and after the
+    declaration (env0).  `reeval` only follows steps that change what the template read (the spec's Reeval needs a
+    completed future)."""
+    out = []
+    falsy = (I(0), B(False), S(''))
+    for cid in (4, 5, 8, 23):                                  # machine variable b (missing in ENV_B, declared in ENV_B0)
+        for v in falsy + (I(3),):
+            seq = [_set('mb', v), RE, PO, _set('mb', I(3) if v != I(3) else I(1)), RE, _set('mb', v), RE, PO]
+            out.append((cid, [{'op': 'declare', 'var': 'mb'}] + seq, ENV_B))
+            out.append((cid, seq, ENV_B0))
+        out.append((cid, [{'op': 'declare', 'var': 'mb'}, _set('mb', NONE), _set('mb', I(0)), RE, _set('mb', B(False)), PO,
+                          _set('mb', S('')), RE, _set('mb', I(0)), RE, _set('mb', NONE), RE, _set('mb', B(False)), RE, PO,
+                          _set('mb', NONE), RE, _set('mb', S('')), RE, PO], ENV_B))
+        # removed (while unset: nothing changes) and set again
+        out.append((cid, [{'op': 'remove', 'var': 'mb'}, _set('mb', I(0)), RE, PO], ENV_B0))
+        out.append((cid, [{'op': 'declare', 'var': 'mb'}, {'op': 'remove', 'var': 'mb'}, {'op': 'declare', 'var': 'mb'},
+                          _set('mb', B(False)), RE, PO], ENV_B))
+    for cid in (33, 34, 37, 40):                               # setting sq stored in the machine variable qv
+        out.append((cid, [_set('sq', I(0)), RE, PO, _set('sq', I(2)), RE, _set('sq', I(0)), RE, PO, _setm('sq', B(False)), PO,
+                          _setm('sq', S('')), RE, _set('sq', I(0)), RE, PO], ENV_B))
+        out.append((cid, [_set('sq', I(0)), RE, PO, _setm('sq', I(5)), RE, _setm('sq', I(0)), RE, PO], ENV_B0))
+        out.append((cid, [{'op': 'declare', 'var': 'sq'}, _set('sq', I(0)), RE, PO], ENV_B))
+        out.append((cid, [{'op': 'declare', 'var': 'sq'}, _setm('sq', B(False)), RE, PO, _set('sq', I(3)), RE], ENV_B))
+        out.append((cid, [_set('sq', I(3)), RE, PO, _set('sq', I(0)), RE, PO], ENV_B0))
+    for cid in (9, 10, 25):                                    # setting st under its own name, never changed in ENV_B0
+        out.append((cid, [_set('st', I(0)), RE, PO, _set('st', I(2)), RE, _set('st', I(0)), RE, PO], ENV_B0))
+        out.append((cid, [{'op': 'declare', 'var': 'st'}, _setm('st', I(0)), RE, PO, _setm('st', S('')), RE,
+                          _set('st', I(0)), RE, PO], ENV_B0))
+        out.append((cid, [{'op': 'declare', 'var': 'st'}, _set('st', I(0)), RE, PO], ENV_B0))
+        out.append((cid, [_set('st', I(0)), RE, PO, _setm('st', B(False)), PO, _set('st', I(2)), RE], ENV_B))
+    out.append((36, [_set('sc', I(0)), RE, PO, _set('sc', I(3)), RE, _set('sc', I(0)), RE, PO], ENV_SC))
+    out.append((36, [{'op': 'declare', 'var': 'sc'}, _set('sc', I(0)), RE, PO], ENV_SC))
+    out.append((36, [_set('sc', I(0)), RE, PO, _setm('sc', B(False)), PO, _setm('sc', S('')), RE], ENV_B))
+    for cid in (11, 12, 27):                                   # player variable: falsy after non-zero, '' and back
+        out.append((cid, [_set('px', I(2), p=1), RE, PO, _set('px', I(0), p=1), RE, PO, _set('px', S(''), p=1), RE, PO,
+                          _set('px', I(0), p=1), RE, _set('px', I(2), p=1), RE, _set('px', S(''), p=1), RE, PO], ENV_B))
+    return out
 
 
 def extended_cases():
@@ -1101,9 +1206,12 @@ def run(ctx):
     # ---- part B: freshness state machine
     mo = 4 if ctx.quick else 6
     with open(wd + '/B.cfg', 'w') as f:
-        f.write(CFG % ('Spec', mo, 0, '{FALSE}', PROPS_B))
+        bcfg = CFG % ('Spec', mo, 0, '{FALSE}', PROPS_B)
+        for n in ('MCMVals', 'MCSVals', 'MCSMVals'):      # one value per class (schedules are generated over the full sets)
+            bcfg = bcfg.replace('<- %s\n' % n, '<- %sQ\n' % n)
+        f.write(bcfg)
     r = tlc.expect_ok(tlc.check(wd, 'TemplatesMCB', 'B.cfg', timeout=3000), 'Templates freshness design check (part B)')
-    ctx.add_tlc('TemplatesMCB', r, {'configs': len(TABLE), 'MaxOps': mo})
+    ctx.add_tlc('TemplatesMCB', r, {'configs': len(TABLE), 'MaxOps': mo, 'value_sets': 'one per class'})
     ctx.coverage['monitors'] += ['EvalTotal', 'OpsDistinct', 'NoStaleAtRest', 'AutoFresh', 'Notified', 'ReevalCurrent',
                                  'trace:OracleOK', 'trace:MonitorOK', 'trace:ModelOK', 'trace:Obs']
     with open(wd + '/Trace.cfg', 'w') as f:
@@ -1151,10 +1259,11 @@ def run(ctx):
     # ---- part B on the real code
     with open(wd + '/Gen.cfg', 'w') as f:
         f.write(CFG % ('Spec', 14, 0, '{FALSE}', ''))
-    behs, _ = tlc.simulate(wd, 'TemplatesMCB', 'Gen.cfg', num=1600 if ctx.quick else 10000, depth=12 if ctx.quick else 15,
+    behs, _ = tlc.simulate(wd, 'TemplatesMCB', 'Gen.cfg', num=1500 if ctx.quick else 10000, depth=12 if ctx.quick else 15,
                            seed=ctx.seed)
     jobs = [(mdir, b[0]['cfg']['id'], [_act(s['act']) for s in b], ENV_B if b[0]['env']['game'] else ENV_B0) for b in behs]
     jobs += [(mdir, cid, sched) for cid, sched in HAND]
+    jobs += [(mdir, cid, sched, env0) for cid, sched, env0 in first_write_family()]
     btr = harness.pmap(exec_schedule, jobs, chunk=4, item_timeout=300)
     vb = tlc.validate_traces(wd, 'TemplatesTrace', 'Trace.cfg', btr, diagnose=False, timeout=3000)
     for i, info in diagnose_all(wd, btr, sorted(vb.rejected)).items():
@@ -1207,7 +1316,7 @@ def _vstr(r):
 
 def _envstr(env):
     return ' '.join('%s=%s' % (k, [dec(x) for x in v] if k == 'px' else (v if k in ('game', 'cur') else repr(dec(v))))
-                    for k, v in env.items())
+                    for k, v in env.items() if k != 'dc')
 
 
 def _act(a):
